@@ -323,7 +323,10 @@ pub(crate) fn pack_array_to_dictionary_via_primitive<K: ArrowDictionaryKeyType>(
     dict_value_type: &DataType,
     cast_options: &CastOptions,
 ) -> Result<ArrayRef, ArrowError> {
-    let primitive = cast_with_options(array, &primitive_type, cast_options)?;
+    // cast to the dictionary value type first: its integer representation is
+    // not the integer cast of the source (units, parsing, calendar arithmetic)
+    let values = cast_with_options(array, dict_value_type, cast_options)?;
+    let primitive = cast_with_options(values.as_ref(), &primitive_type, cast_options)?;
     let dict = cast_with_options(
         primitive.as_ref(),
         &DataType::Dictionary(Box::new(K::DATA_TYPE), Box::new(primitive_type)),
